@@ -74,9 +74,11 @@ func runC07(c *core.Ctx) {
 	c.Rule("R5", "non-blocking: no blocking operation (bare send/receive, select without default, Sleep, Wait) is reachable from BufferedChannelQueue.Offer/Poll/Put/Count or ChannelQueue.Offer/Poll, and none happens while the queue lock is held", 7)
 	c.Rule("R6", "ChannelQueue wrapper shapes: Take/TakeWithTimeout map a closed channel to ErrQueueIsClosed via comma-ok, timeouts come from a select arm on time.After(timeout), Offer/Poll default arms return ErrQueueIsFull/ErrQueueIsEmpty, success arms return the value/nil", 6)
 	c.Rule("R7", "Count returns len(channel)+pool.Count() with both operands read under one hold of the queue lock", 1)
+	c.Rule("R8", "every lock a BufferedChannelQueue method takes is released in the same mode on every return path", 5)
 	c.Assume = append(c.Assume, "Go channels are FIFO; the pool list is a correct deque when accessed under mutual exclusion (C06)")
 	li := core.ComputeLocks(p)
 	bq := p.Named(p.Fpgo, "BufferedChannelQueue")
+	lockBalance(c, li, "R8", funcsOfType(p, p.Fpgo, "BufferedChannelQueue"))
 	if bq == nil {
 		c.Unknown("R1", "anchor", "-", "type BufferedChannelQueue not found")
 		return
